@@ -2,7 +2,7 @@
 # Runs every registered check (quick tier by default) on /repo as it is and prints one line per check.
 tier=${1:-quick}
 cd /verif
-for p in $(python3 -c "import json; print(' '.join(sorted(json.load(open('checks.json')))))"); do
+for p in $(python3 -c "import json; c=json.load(open('checks.json')); print(' '.join(sorted(k for k in c if 'reports_as' not in c[k])))"); do
   s=$(date +%s)
   out=$(bin/check $p --tier $tier 2>&1); rc=$?
   e=$(date +%s)
